@@ -10,7 +10,8 @@ FORBIDDEN = re.compile(r"\bsorry\b|\badmit\b|^\s*axiom\s|native_decide|bv_decide
 
 
 def lake_build(target, timeout=3000):
-    p = subprocess.run(["lake", "build", target], cwd=LEAN_DIR, stdout=subprocess.PIPE, stderr=subprocess.STDOUT, timeout=timeout)
+    targets = [target] if isinstance(target, str) else list(target)
+    p = subprocess.run(["lake", "build"] + targets, cwd=LEAN_DIR, stdout=subprocess.PIPE, stderr=subprocess.STDOUT, timeout=timeout)
     return p.returncode == 0, p.stdout.decode()[-6000:]
 
 
@@ -57,9 +58,11 @@ def audit(module, theorems, timeout=1200):
     """`#print axioms` each theorem; returns (per_theorem: {name: (ok, axioms|error)}, raw)"""
     d = os.path.join(LEAN_DIR, ".lake", "audit")
     os.makedirs(d, exist_ok=True)
-    path = os.path.join(d, module.replace(".", "_") + ".lean")
+    mods = [module] if isinstance(module, str) else list(module)
+    path = os.path.join(d, "_".join(m.replace(".", "_") for m in mods)[:150] + ".lean")
     with open(path, "w") as f:
-        f.write(f"import {module}\n")
+        for m in mods:
+            f.write(f"import {m}\n")
         for t in theorems:
             f.write(f"#print axioms {t}\n")
     p = subprocess.run(["lake", "env", "lean", path], cwd=LEAN_DIR, stdout=subprocess.PIPE, stderr=subprocess.STDOUT, timeout=timeout)
